@@ -522,28 +522,33 @@ func TestSorterExhaustive(t *testing.T) {
 					}
 					u.Case()
 					var m *sorterMachine
+					var executed []SoOp // including the probes, so that a failure replays exactly
 					v := vf.Guard("C03/sorter-exhaustive", func() *vf.Verdict {
 						m = newSorterMachine(p)
+						do := func(op SoOp) *vf.Verdict {
+							executed = append(executed, op)
+							return m.Apply(op)
+						}
 						for _, op := range ops {
-							if v := m.Apply(op); v != nil {
+							if v := do(op); v != nil {
 								return v
 							}
 							// after every step: the whole contiguous run is peekable and correct, one more byte is not
 							run := m.set.run(m.rpos)
-							if v := m.peek(m.rpos, run); v != nil {
+							if v := do(SoOp{K: "peek", Off: m.rpos, N: run}); v != nil {
 								return v
 							}
-							if v := m.peek(m.rpos, run+1); v != nil {
+							if v := do(SoOp{K: "peek", Off: m.rpos, N: run + 1}); v != nil {
 								return v
 							}
-							if v := m.Apply(SoOp{K: "more"}); v != nil {
+							if v := do(SoOp{K: "more"}); v != nil {
 								return v
 							}
 						}
 						return m.finish()
 					})
 					if v != nil {
-						cs := vf.MachineCase[SoParams, SoOp]{Params: p, Ops: ops}
+						cs := vf.MachineCase[SoParams, SoOp]{Params: p, Ops: executed}
 						if vf.U("sorter-model").Report(v, cs) {
 							t.Fatalf("VIOLATION %s: %s (case %+v)", v.Sig, v.Detail, cs)
 						}
